@@ -390,6 +390,7 @@ pub fn property() -> Property {
         rule: "materials: 0..6 texture paths (strings canonical: texture paths first, in order), uv / colour sets, extra strings, additional data of 4..9 bytes with random unrelated flag bits, table kind in {none, legacy dims 0, legacy dims 0x42, Dawntrail 0x53} with random half patterns in every row component, dye table where the reader supports it, 0..8 keys, 0..8 constants of 1..4 finite floats with gaps in the value list, 0..6 samplers over the 22 known usages. shader packages: DX9/DX11, 0..4 vertex / pixel shaders with 0..4 parameters of each kind (names in a shared heap, optionally de-duplicated), bytecode blobs, material parameters with / without defaults, package parameters, three key tables, 0..8 nodes with 0..16 passes, 0..6 aliases, tight (no trailing bytes) and roomy files. selector lists: 4 lists of 0..19 keys. Oracle: the generated values (private fields observed through Debug); colour / dye rows component by component from their own half / bit field (own half decoder); pixel bytecode exactly, vertex bytecode as the blob after its 8-byte header; find_node for every node selector, every alias and an absent selector; build_selector = sum key_i * 31^i mod 2^32 in u128 arithmetic. Non-trivial: material with a table whose first row has pairwise distinct halves; package with >= 1 alias and >= 2 nodes; selector lists with >= 2 keys. Distinct by hash of the file.",
         assumptions: &["vertex-shader bytecode beyond data_size - 8 is not compared; 8 spare bytes follow the file when it has vertex shaders", "dye table with dims 0x42 is not generated", "node and alias selectors are pairwise distinct; alias node indices are in range"],
         pre: None,
+        post: None,
         parts: vec![
             Box::new(Part { name: "materials", driver: Driver::Gen(mtrl_strategy, 2_000, 30_000), prop: prop_mtrl, exhaustive: false }),
             Box::new(Part { name: "shader-packages", driver: Driver::Gen(shpk_strategy, 2_000, 30_000), prop: prop_shpk, exhaustive: false }),
